@@ -28,7 +28,7 @@ def scenarios(draw):
     base = interval or 2.0
     h = {'kind': 'timer', 'id': 'tm', 'interval': interval, 'sharp': draw(st.sampled_from([None, None, True])) if interval else None,
          'idle': idle, 'initial_delay': draw(st.sampled_from([None, None, 0, 1.5, '@callable:2.5'])),
-         'backoff': draw(st.sampled_from([None, 0.5, 3.0])), 'errors': draw(st.sampled_from([None, None, 'temporary'])),
+         'backoff': draw(st.sampled_from([None, 0.5, 3.0, 0, 0.0])), 'errors': draw(st.sampled_from([None, None, 'temporary'])),
          'duration': draw(st.lists(st.sampled_from([0, 0, 0.5, base / 2, base, base * 1.5, base * 2, base + 1e-6]), min_size=1, max_size=5)),
          'script': draw(st.lists(st.one_of(st.just({'o': 'ok'}), st.just({'o': 'ok'}), st.just({'o': 'err'}),
                                           st.builds(lambda d: {'o': 'temp', 'delay': d}, st.sampled_from([0.0, 0.5, 3.0, 7.0]))), max_size=6))}
@@ -164,6 +164,8 @@ def run_case(sc):
                 reasons = [r + idle for r in deliveries + [spawn]] if idle else []
                 if any(abs(n - x) <= EPS for x in reasons):
                     postponed = True
+                elif base is None and i > 0 and abs(n - runs[i - 1]['t1']) <= EPS and any(runs[i - 1]['t0'] < r and r + idle <= n + EPS for r in deliveries):
+                    postponed = True     # (idle-only: the change came during the previous run and its idle time was over when that run ended)
                 elif sharp and idle and interval and i > 0 and abs(((n - runs[i - 1]['t0']) / interval) - round((n - runs[i - 1]['t0']) / interval)) * interval <= EPS:
                     postponed = True
                 else:
